@@ -1239,6 +1239,9 @@ func checkC44(c *Ctx) string {
 			fmt.Sprintf("counter changes per function: %v", deltas))
 	}
 	checkEnabledDecides(c, "C44.2b K11 enabled(table) decides from that table's disable count")
+	checkMutationAbortWrapper(c, t, "C44.4 K4 cascades and index changes run under recover→Abort→re-panic", t.fkDelCasc, t.fkUpdCasc)
+	checkUnloadClearsMissCache(c, "C44.5 K5 unloading a name clears its cached not-defined answer")
+	checkTriggerVetoAborts(c, t, "C44.6 K4 a trigger exception aborts the transaction")
 	// call2 dominated by enabled(table) true edge
 	r3 := "C44.3 K4c the trigger runs only while enabled, and its failure propagates"
 	enabled := p.DeclaredMethod("db19", "triggers", "enabled")
